@@ -176,6 +176,129 @@ def impl_sym(a: dict) -> dict:
     return out
 
 
+def gen_axes(rnd):
+    """A Shape[...] of 1-5 axes: expression trees, plain ints, ConstantAxis, at most one AnonymousAxis / Ellipsis."""
+    n = rnd.choice([1, 2, 2, 3, 3, 4, 5])
+    marker_at = rnd.randrange(n) if rnd.random() < 0.5 else None
+    axes = []
+    for i in range(n):
+        if i == marker_at:
+            q = rnd.random()
+            axes.append(("anon", "ellipsis") if q < 0.3 else ("anon", "axis") if q < 0.6 else ("star", rnd.choice(["batch", "g", "rest_1"])))
+            continue
+        q = rnd.random()
+        if q < 0.2:
+            axes.append(("const", rnd.choice(["rgb", "k", "C_out"]), rnd.choice([0, 1, 3, 12])))
+        elif q < 0.35:
+            axes.append(("expr", ("int", rnd.choice([0, 1, 2, 16]))))
+        else:
+            t = gen(rnd, rnd.choice([0, 1, 2, 3]))
+            axes.append(("expr", t))
+    return axes
+
+
+def axes_src(axes) -> str:
+    parts = []
+    for a in axes:
+        if a[0] == "expr":
+            parts.append(py_src(a[1]))
+        elif a[0] == "const":
+            parts.append(f"dltype.ConstantAxis({a[1]!r}, {a[2]})")
+        elif a == ("anon", "ellipsis"):
+            parts.append("...")
+        elif a[0] == "anon":
+            parts.append("dltype.AnonymousAxis(...)")
+        else:
+            parts.append(f"dltype.AnonymousAxis({a[1]!r})")
+    return "dltype.Shape[" + ", ".join(parts) + ("," if len(parts) == 1 else "") + "]"
+
+
+def axes_sx(axes) -> str:
+    out = []
+    for a in axes:
+        if a[0] == "expr":
+            out.append(f"(expr {sym_sx(a[1])})")
+        elif a[0] == "const":
+            out.append(f"(const {sx_str(a[1])} {sx_int(a[2])})")
+        elif a[0] == "anon":
+            out.append("anon")
+        else:
+            out.append(f"(star {sx_str(a[1])})")
+    return "(sshape (" + " ".join(out) + "))"
+
+
+def impl_shape(a: dict) -> dict:
+    """Worker side: str(Shape[...]), the annotation built from it, and the annotation built from the printed string."""
+    import dltype
+
+    try:
+        shape = eval(a["src"], {"dltype": dltype})  # noqa: S307
+        text = str(shape)
+    except BaseException as e:  # noqa: BLE001
+        return {"v": "build", "exn": type(e).__name__}
+    out = {"v": "ok", "text": text}
+    try:
+        ann = dltype.TensorTypeBase[shape]
+    except BaseException as e:  # noqa: BLE001
+        out["annot"] = type(e).__name__
+        return out
+    try:
+        twin = dltype.TensorTypeBase[text]
+        out["same_as_string"] = repr(ann) == repr(twin) and ann.multiaxis_index == twin.multiaxis_index and ann.multiaxis_name == twin.multiaxis_name
+    except BaseException as e:  # noqa: BLE001
+        out["same_as_string"] = f"string form raised {type(e).__name__}"
+    out.update({"mi": ann.multiaxis_index, "mn": ann.multiaxis_name, "an": bool(ann.anonymous_multiaxis), "n": len(ann.expected_shape)})
+    return out
+
+
+def run_shapes(tier: str, rnd, rep: Report, model: Model) -> None:
+    n = depth(tier, 500, 6000)
+    shapes = [gen_axes(rnd) for _ in range(n)]
+    shapes = [[("star", "batch"), ("const", "rgb", 3), ("expr", ("bin", "*", ("var", "a"), ("bin", "//", ("var", "b"), ("int", 2)))), ("expr", ("int", 4))]] + shapes
+    rep.streams["whole_shapes"] = len(shapes)
+    answers = model.ask_many([axes_sx(ax) for ax in shapes])
+    worker = ImplWorker("harness.props.c18")
+    try:
+        results = worker.call_many("impl_shape", [{"src": axes_src(ax)} for ax in shapes], timeout=20.0)
+    finally:
+        worker.close()
+    for ax, ans, res in zip(shapes, answers, results):
+        if "__skipped__" in res:
+            continue
+        src = axes_src(ax)
+        rec = {"python": src, "impl": res, "model": ans}
+        rep.case(src, {"python": src, "printed": res.get("text")}, nontrivial=len(ax) >= 2)
+        if "v" not in res:
+            rep.violation({"what": "building the shape did not finish", **rec})
+            continue
+        neg = any(a[0] == "expr" and has_negative_constant(a[1]) for a in ax)
+        mtext = unhex(ans.split()[1]) if ans.startswith("OK ") else None
+        if res["v"] == "build":
+            rep.count("shape_build_" + res["exn"])
+            if not (ans.startswith("PRINT_ERR") or neg):
+                rep.violation({"what": f"building / printing the shape raised {res['exn']}", **rec})
+            continue
+        if mtext is not None and res["text"] != mtext:
+            rep.disagreement({"what": "model printer and str(Shape[...]) differ", "model_text": mtext, **rec})
+        if "annot" in res:
+            rep.count("shape_annotation_" + res["annot"])
+            if neg and res["annot"] == "SyntaxError":
+                if not rep.known("K4", rec):
+                    rep.violation({"what": "a shape with a negative constant cannot be turned into an annotation", **rec})
+            else:
+                rep.violation({"what": f"TensorType[Shape[...]] raised {res['annot']} for a well-formed shape", **rec})
+            continue
+        want_mi = next((i for i, a in enumerate(ax) if a[0] in ("anon", "star")), None)
+        want_mn = next((a[1] for a in ax if a[0] == "star"), None)
+        rep.count("shape_ok")
+        if res.get("same_as_string") is not True:
+            rep.violation({"what": "TensorType[Shape[...]] is not the annotation of the printed string", **rec})
+        elif res["mi"] != want_mi or res["mn"] != want_mn or res["n"] != len(ax):
+            rep.violation({"what": "the multi-axis position / name / number of dimensions is not the shape's", "expected": [want_mi, want_mn, len(ax)], **rec})
+        if rep.many_violations():
+            break
+
+
 def run(tier: str, seed: int, rep: Report, model: Model) -> dict:
     rnd = rng_for("C18", seed)
     n = depth(tier, 1500, 20000)
@@ -238,6 +361,7 @@ def run(tier: str, seed: int, rep: Report, model: Model) -> dict:
         rep.count("value_ok" if ok else "value_wrong")
         if rep.many_violations():
             break
+    run_shapes(tier, rng_for("C18", seed, "shapes"), rep, model)
     # arithmetic on constant / anonymous axes is refused
     import dltype
     for src in ("dltype.ConstantAxis('rgb', 3) + 1", "1 + dltype.ConstantAxis('rgb', 3)", "dltype.AnonymousAxis('b') * 2", "2 * dltype.AnonymousAxis('b')",
